@@ -21,6 +21,7 @@ type SerialStats struct {
 	Steps        int
 	Kinds        map[string]int
 	PingsUnacked int // ping replies whose processing could not be observed within the watchdog
+	Swaps        int // delete + re-add of an entry performed while its liveness check was in flight
 	Trace        []string
 }
 
@@ -42,8 +43,11 @@ func RunSerial(rng *rand.Rand, nSteps int, obs Observer) (SerialStats, error) {
 	type heldPing struct {
 		ev     *pingEvent
 		seenAt int
+		inc    uintptr
 	}
 	var held []heldPing
+	var swapRec Rec
+	swapStage := 0
 	entriesOf := func(s portalwire.VerifTableSnap) []portalwire.VerifNodeSnap {
 		var out []portalwire.VerifNodeSnap
 		for _, b := range s.Buckets {
@@ -65,17 +69,28 @@ func RunSerial(rng *rand.Rand, nSteps int, obs Observer) (SerialStats, error) {
 			if !ok {
 				break
 			}
-			held = append(held, heldPing{ev, n})
+			held = append(held, heldPing{ev, n, d.RevalInc(ev.node.ID())})
 			wait = 0
+		}
+		// directed schedule: while a liveness check of an entry is in flight, that entry is deleted and the
+		// same record added again, so that the answer arrives for an entry object that has been replaced
+		if swapStage == 0 && len(held) > 0 && rng.Intn(12) == 0 {
+			for _, e := range entriesOf(before) {
+				if e.ID == held[0].ev.node.ID() {
+					swapRec, swapStage = Rec{ID: e.ID, Seq: e.Seq, IP: e.IP, Port: e.UDP, Node: e.Node}, 1
+				}
+			}
 		}
 		var ev *pingEvent
 		seenAt := 0
-		if len(held) > 0 && (n-held[0].seenAt >= 6 || len(held) >= 3 || rng.Intn(3) != 0) {
-			ev, seenAt = held[0].ev, held[0].seenAt
+		var inc uintptr
+		if swapStage == 0 && len(held) > 0 && (n-held[0].seenAt >= 6 || len(held) >= 3 || rng.Intn(3) != 0) {
+			ev, seenAt, inc = held[0].ev, held[0].seenAt, held[0].inc
 			held = held[1:]
 		}
 		if ev != nil {
 			st.PingSeenAt = seenAt
+			st.PingInc = inc
 			st.Kind = PingReply
 			st.Pinged = ev.node.ID()
 			st.PingNode = ev.node
@@ -109,6 +124,23 @@ func RunSerial(rng *rand.Rand, nSteps int, obs Observer) (SerialStats, error) {
 				stats.PingsUnacked++
 			}
 			afterAdvance = true // several pings may be pending
+		} else if swapStage == 1 {
+			afterAdvance = false
+			st.Kind, st.Rec = Delete, swapRec
+			d.Tab.VerifDelete(swapRec.Node)
+			swapStage = 2
+		} else if swapStage == 2 {
+			afterAdvance = false
+			st.Rec = swapRec
+			if rng.Intn(2) == 0 {
+				st.Kind = AddFound
+				st.RetBool = d.Tab.VerifAddFound(swapRec.Node, false)
+			} else {
+				st.Kind = AddInbound
+				st.RetBool = d.Tab.VerifAddInbound(swapRec.Node)
+			}
+			swapStage = 0
+			stats.Swaps++
 		} else {
 			afterAdvance = false
 			k := rng.Intn(100)
